@@ -29,19 +29,11 @@ def _sibling_named(cont, obj):
 
 def known_attach_classes(v, cont, obj, via):
     """
-    The two recorded defect classes of attaching an object (see known_findings.json).
-    F-C03-cycle          : obj is attached below itself.
-    F-C03-double-attach  : append/insert/extend of an object that already has
-                           another parent and is not refused (no name clash).
+    Formerly the input classes of two open findings (a Section attached below itself; append/insert/extend of
+    an object that still has another parent).  Both were repaired in the repository (fixed: entries in
+    known_findings.json), so nothing is assumed away any more: these inputs are explored like all others.
     """
-    if C.is_prop(obj) and not C.is_sec(cont):
-        return
-    if C.is_sec(obj):
-        v.known("F-C03-cycle", _descends_from(cont, obj))
-    if via in ("append", "insert", "extend"):
-        par = obj._parent
-        if par is not None and par is not cont:
-            v.known("F-C03-double-attach", not _sibling_named(cont, obj))
+    return
 
 
 # ---------------------------------------------------------------- opcodes
